@@ -222,6 +222,8 @@ def build_fail(st, r, lazy=False):
     k = gen.choice(r, [0, 1, 1, 1, 2, 3, 4, 5, 6, 7, 8, 9, 10, 10, 11, 12, 13, 13, 14, 14, 15, 16, 17, 18])
     if lazy and version == "gfa2" and gen.chance(r, 0.3):
         k = 18
+    if version == "gfa2" and gen.chance(r, 0.5) and any(n in H.POOL["E"] for n in m.undefined_mentions()):
+        k = 14  # an edge that a group is waiting for
     if gen.fair(r, 0.05):
         # None removes a tag; given to a positional field of a connected line it is no value at all
         fields = {"F": ["external", "s_beg", "alignment"], "S": ["sequence"], "C": ["pos"], "L": ["overlap"], "E": ["beg1", "alignment"], "G": ["disp", "var"]}
@@ -359,7 +361,7 @@ def build_fail(st, r, lazy=False):
             return None
         a, b = gen.choice(r, segs), gen.choice(r, segs)
         longer = [x for x in segs if st.slen.get(x, 0) >= 2 and x in st.seq]
-        if longer and gen.chance(r, 0.35):
+        if longer and gen.chance(r, 0.5):
             # ... or, as text, with a '$' on a position which is not the last one of a segment whose sequence is
             # given (gfapy reports that on validate(), not here: the call is then expected to succeed)
             return ["fail", "add", "E\t%s\t%s+\t%s-\t0\t1$\t0\t0\t*" % (gen.choice(r, pend), gen.choice(r, longer), b), "dollar_not_last_on_awaited"]
@@ -428,6 +430,15 @@ def gen_case(r, version):
     ops.append(["header_ok", "H\tVN:Z:%s\tTS:i:5\tzx:Z:first\tzv:i:7" % ("1.0" if version == "gfa1" else "2.0")])
     ops.append(["header_ok", "H\tzx:Z:second"])
     for _ in range(r.randint(3, 14)):
+        if version == "gfa2" and gen.fair(r, 0.08) and st_.model.segment_names():
+            # a set that waits for an edge which is not there yet (what the awaited-edge kinds need)
+            taken = set(st_.model.names()) | set(st_.model.undefined_mentions())
+            en = [n for n in H.POOL["E"] if n not in taken]
+            un = [n for n in H.POOL["U"] if n not in taken]
+            if en and un:
+                line = ["U", [un[0], "%s %s" % (en[0], gen.choice(r, st_.model.segment_names()))], []]
+                H.model_add(st_, line)
+                ops.append(["add", line, False])
         if gen.chance(r, 0.55):
             f = build_fail(st_, r, lazy=(vlevel == 0))
             if f is None:
